@@ -10,6 +10,8 @@
 import IocProofs.Lemmas.Scan
 import IocProofs.Lemmas.ScanHand
 import IocProofs.Lemmas.ScanValue
+import IocProofs.Lemmas.SemScanFields
+import IocProofs.Lemmas.ScanCode
 namespace Ioc.C11
 open Ioc Ioc.Scan
 
@@ -223,5 +225,66 @@ example : Tag.PlainVal (ofString " | ") ∧ Tag.PlainVal (ofString "  ") ∧ Tag
     Tag.parse? (ofString "  ") = some (ofString "  ", []) ∧
     (Tag.parse? (ofString " - ,a=(x, y) z")).map (·.1) = some (ofString " - ") := by decide
 end examples
+
+/-! ### the REGENERATED scanner (Meta.scanFields with its function literal, reflectx.ForEachFieldV2)
+
+    Under the interpretation Ioc.SemScanFields (what reflection answers about each declared field is the parameter `fs`; the
+    recursive call `m.scanFields(NewEmbedHolder(…))` is the parameter `sub`) the syntax tree of Meta.scanFields in /repo
+    contributes, per level, exactly what the model's `scanShape` contributes; `ForEachFieldV2` is the in-order walk it is
+    interpreted as — so `scanShape`, the function all theorems above are about, is the recursion of the code. -/
+section code
+open Ioc.Go Ioc.Sem
+
+theorem C11_code_scanFields {α : Type} (fs : List LField) (own : Nat → α) (sub : Nat → List α) (w : List α) :
+    run (scanPrims fs own sub) Progs.meta_scanFields [.str "holder"] w =
+      some (.tuple [], w ++ levelScan fs own sub 0 (List.range' 0 fs.length)) :=
+  scanFields_sem fs own sub w
+
+/-- one field: an anonymous, untagged, by-value struct is descended into WHETHER OR NOT it is settable (the embedded struct of
+    an unexported type); any other field is kept exactly when it is settable -/
+theorem C11_code_field_rule {α : Type} (f : LField) (own : α) (sub : List α) :
+    fieldScan f own sub = (if f.anon && f.tagEmpty && f.isStruct then sub else if f.canSet then [own] else []) := rfl
+
+theorem C11_code_forEachField {σ : Type} (n : Nat) (pub : Nat → Bool) (cb : Nat → σ → Option String × σ) (fuel : Nat) (ex : Bool)
+    (w : σ) (hf : n + 1 ≤ fuel) :
+    run (fePrims n pub cb fuel) Progs.reflectx_ForEachFieldV2 [.str "T", .str "V", .bool ex, .ref 0 40] w =
+      some (encOptErr (feLoop cb (fun j => ex && !pub j) (List.range' 0 n) w).1,
+            (feLoop cb (fun j => ex && !pub j) (List.range' 0 n) w).2) ∧
+    run (fePrims n pub cb fuel) Progs.reflectx_ForEachFieldV2 [.str "PT", .str "PV", .bool ex, .ref 0 40] w =
+      run (fePrims n pub cb fuel) Progs.reflectx_ForEachFieldV2 [.str "T", .str "V", .bool ex, .ref 0 40] w ∧
+    run (fePrims n pub cb fuel) Progs.reflectx_ForEachFieldV2 [.str "OT", .str "V", .bool ex, .ref 0 40] w = some (.nil, w) :=
+  ⟨forEachField_sem n pub cb fuel ex w hf, forEachField_ptr_sem n pub cb fuel ex w hf, forEachField_other_sem n pub cb fuel ex _ w⟩
+
+/-- the walk the primitive does for scanFields (every index, nothing skipped, first error ends it) is that loop -/
+theorem C11_code_walk_is_forEachField {σ : Type} (k : Handler σ) (cb : Nat → σ → Option String × σ)
+    (hk : ∀ i w, k [.ref i 60, .ref i 61] w = some (encOptErr (cb i w).1, (cb i w).2)) (is : List Nat) (w : σ) :
+    feLoopK k is w = some (encOptErr (feLoop cb (fun _ => false) is w).1, (feLoop cb (fun _ => false) is w).2) :=
+  feLoopK_total k cb hk is w
+
+/-- the model's `scanShape` IS `levelScan` (the per-level function of the regenerated scanFields) with the model's own
+    recursion as the recursive call -/
+theorem C11_scanShape_is_code_level (path : List Bytes) (sh : Shape) :
+    scanShape path sh =
+      levelScan ((Shape.toList sh).map lfOf)
+        (fun i => ⟨path, infoOf ((Shape.toList sh).getD i (.leaf ⟨[], false, [], [], none⟩))⟩)
+        (fun i => subOf path ((Shape.toList sh).getD i (.leaf ⟨[], false, [], [], none⟩)))
+        0 (List.range' 0 ((Shape.toList sh).map lfOf).length) := by
+  rw [scanShape_is_flatMap, levelScan_eq_flatMap]
+  have hmap := map_getD_range' (FieldT.leaf ⟨[], false, [], [], none⟩) (Shape.toList sh) []
+  simp only [List.length_nil, List.nil_append] at hmap
+  rw [List.length_map]
+  have hl : (Shape.toList sh).flatMap (fun f => fieldScan (lfOf f) ⟨path, infoOf f⟩ (subOf path f)) =
+      ((List.range' 0 (Shape.toList sh).length).map
+        (fun i => (Shape.toList sh).getD i (FieldT.leaf ⟨[], false, [], [], none⟩))).flatMap
+        (fun f => fieldScan (lfOf f) ⟨path, infoOf f⟩ (subOf path f)) := by rw [hmap]
+  rw [hl, List.flatMap_map]
+  apply flatMap_congr_mem
+  intro i hi
+  have hi' : i < (Shape.toList sh).length := by
+    have := List.mem_range'_1.mp hi
+    omega
+  simp [lfieldAt, List.getD_eq_getElem?_getD, hi']
+
+end code
 
 end Ioc.C11
